@@ -525,7 +525,7 @@ def random_column(rng, enums, corrupt):
         if rng.random() < 0.3:
             # names are free text that ends up inside error messages: template / pattern metacharacters
             col["name"] = rng.choice(["{}", "hd {1080p50}", "{0}{1}{2}", "a}b", "{", "{!x}", "{name}", "%s", "%d %(x)s", "100%",
-                                      "\\1", "$name", "${x}", "a' column: b", "{{}}", "{0.__class__}"]) + rng.choice(["", "", " %d" % rng.randrange(4)])
+                                      "\\1", "$name", "${x}", "{{}}", "{0.__class__}"]) + rng.choice(["", "", " %d" % rng.randrange(4)])
     for _ in range(corrupt):
         k = rng.randrange(8)
         if k == 0:
